@@ -500,10 +500,28 @@ func (w *World) Drain() {
 	w.inDrain = true
 	defer func() { w.inDrain = false }()
 	w.Lines = append(w.Lines, "    -- drain epilogue --")
+	// applications that are Completing are left undisturbed until their timer fires: they must become Completed and
+	// a Completed application never has a live allocation
+	fireCompleting := func() {
+		for _, id := range SortedKeys(w.Last.Apps) {
+			if a := w.Last.Apps[id]; a != nil && a.State == "Completing" && a.StateTimerArmed && !w.Dead && len(w.Vios) == 0 {
+				w.Step(Op{Kind: OpFireState, App: id})
+			}
+		}
+	}
+	if w.StepNo%2 == 0 {
+		fireCompleting()
+	}
+	defer func() {
+		if !w.Dead && len(w.Vios) == 0 {
+			fireCompleting()
+		}
+	}()
 	for i := 0; i < 200 && len(s.Pending) > 0 && !w.Dead && len(w.Vios) == 0; i++ {
 		c := s.Pending[0]
 		w.Step(Op{Kind: OpConfirm, App: c.App, Key: c.Key, Term: c.Term})
 	}
+	fireCompleting()
 	for _, k := range s.KeysIn(KBound) {
 		if w.Dead || len(w.Vios) > 0 {
 			return
